@@ -1,18 +1,16 @@
 import TarpcModel.Driver.Show
-import TarpcModel.Server.Model
+import TarpcModel.Monitors.Server
 /- Family `srv`: one server connection (Requests stream + executions) over a SimTransport. -/
 namespace TarpcModel.Driver
 open TarpcModel TarpcModel.Server
 
-structure SrvSt where
-  s   : Server.St
-  now : Nat := 0
+def srvLimit (ps : List (String × String)) : Option Nat :=
+  match ps.find? (·.1 == "limit") with
+  | some (_, v) => v.toNat?
+  | none => none
 
-def srvInit (ps : List (String × String)) : SrvSt :=
-  let limit : Option Nat := match ps.find? (·.1 == "limit") with
-    | some (_, v) => v.toNat?
-    | none => none
-  { s := Server.init 0 limit (param ps "resp" 1) (param ps "cap" 1) (param ps "coupled" 1 == 1) }
+def srvInit (ps : List (String × String)) : Server.Sys :=
+  Server.initSys (srvLimit ps) (param ps "resp" 1) (param ps "cap" 1) (param ps "coupled" 1 == 1)
 
 def parseResKV (rest : List String) : Option Res :=
   match kvNat rest "ok", kvNat rest "err" with
@@ -20,54 +18,85 @@ def parseResKV (rest : List String) : Option Res :=
   | _, some k => some (.err k)
   | _, _ => none
 
-def srvApply (c : SrvSt) (toks : List String) : Option SrvSt :=
-  let s := c.s
-  let now := c.now
+def parseSFault : String → Option Server.FaultKind
+  | "ready" => some .ready | "send" => some .send | "flush" => some .flush
+  | "close" => some .close | "next" => some .next | _ => none
+
+def parseSOp (toks : List String) : Option SOp :=
   match toks with
-  | ["poll-server"] => some { c with s := pollServer s now }
-  | ["drop-server"] => some { c with s := dropServer s }
-  | ["poll-exec", r] => do some { c with s := pollExec s (← r.toNat?) now }
-  | ["drop-exec", r] => do some { c with s := dropExec s (← r.toNat?) now }
-  | "finish" :: r :: rest => do some { c with s := finishHandler s (← r.toNat?) (← parseResKV rest) }
+  | ["poll-server"] => some .pollServer
+  | ["drop-server"] => some .dropServer
+  | ["poll-exec", r] => r.toNat?.map .pollExec
+  | ["drop-exec", r] => r.toNat?.map .dropExec
+  | "finish" :: r :: rest => do some (.finish (← r.toNat?) (← parseResKV rest))
   | "inject" :: "req" :: rest => do
-      let tr ← parseTrace (← kvStr rest "t")
-      some { c with s := liftT s (s.t.inject (.msg (.request (← kvNat rest "id") (← kvNat rest "d") tr (← kvNat rest "b")))) }
-  | "inject" :: "cancel" :: rest => do
-      let tr ← parseTrace (← kvStr rest "t")
-      some { c with s := liftT s (s.t.inject (.msg (.cancel (← kvNat rest "id") tr))) }
-  | ["inject", "err"] => some { c with s := liftT s (s.t.inject .err) }
-  | ["eof"] => some { c with s := liftT s s.t.setEof }
-  | ["set-ready", b] => some { c with s := liftT s (s.t.setReady (b == "1")) }
-  | ["set-flush", b] => some { c with s := liftT s (s.t.setFlush (b == "1")) }
-  | ["fault", k] =>
-      let t := s.t
-      let t := match k with
-        | "ready" => { t with faultReady := true }
-        | "send" => { t with faultSend := true }
-        | "flush" => { t with faultFlush := true }
-        | "close" => { t with faultClose := true }
-        | _ => { t with faultNext := true }
-      some { c with s := { s with t := t } }
-  | ["take", n] => do
-      let (t, ms) := s.t.take (← n.toNat?)
-      some { c with s := ms.foldl (fun s m => Server.emit s (.took (Server.tid s) m)) { s with t := t } }
-  | ["advance", n] => do
-      let now' := now + (← n.toNat?)
-      some { s := onAdvance s now', now := now' }
+      some (.injectReq (← kvNat rest "id") (← kvNat rest "d") (← parseTrace (← kvStr rest "t")) (← kvNat rest "b"))
+  | "inject" :: "cancel" :: rest => do some (.injectCancel (← kvNat rest "id") (← parseTrace (← kvStr rest "t")))
+  | ["inject", "err"] => some .injectErr
+  | ["eof"] => some .eof
+  | ["set-ready", b] => some (.setReady (b == "1"))
+  | ["set-flush", b] => some (.setFlush (b == "1"))
+  | ["fault", k] => (parseSFault k).map .fault
+  | ["take", n] => n.toNat?.map .take
+  | ["advance", n] => n.toNat?.map .advance
   | _ => none
 
-def srvStep (c : SrvSt) (toks : List String) : SrvSt × List String :=
-  match srvApply { c with s := { c.s with obs := [] } } toks with
-  | some c' => ({ c' with s := { c'.s with obs := [] } }, c'.s.obs.reverse.map showObs)
+def srvStep (c : Server.Sys) (toks : List String) : Server.Sys × List String :=
+  match parseSOp toks with
+  | some op => let (c', os) := Server.stepOp c op; (c', os.map showObs)
   | none => (c, ["bad-op"])
 
+structure SrvMon where
+  limit : Option Nat := none
+  c04 : Server.Mon Unit := { st := () }
+  c06 : Server.Mon Unit := { st := () }
+  c06s : Server.Mon C06StallSt := { st := {} }
+  c08 : Server.Mon C08St := { st := [] }
+  c09 : Server.Mon Server.C09St := { st := none }
+  c10 : Server.Mon Unit := { st := () }
+  c11 : Server.Mon Unit := { st := () }
+  c12 : Server.Mon Bool := { st := false }
+  c14 : Server.Mon Client.C14St := { st := {} }
+  c18 : Server.Mon Unit := { st := () }
+  garbled : Option String := none
+
+def SrvMon.feed (m : SrvMon) (e : SEv) : SrvMon :=
+  { m with c04 := Server.Mon.step checkC04 m.c04 e, c06 := Server.Mon.step checkC06 m.c06 e,
+           c06s := Server.Mon.step checkC06Stall m.c06s e,
+           c08 := Server.Mon.step checkC08 m.c08 e, c09 := Server.Mon.step Server.checkC09 m.c09 e,
+           c10 := Server.Mon.step Server.checkC10 m.c10 e, c11 := Server.Mon.step Server.checkC11 m.c11 e,
+           c12 := Server.Mon.step checkC12 m.c12 e, c14 := Server.Mon.step Server.checkC14 m.c14 e,
+           c18 := Server.Mon.step Server.checkC18 m.c18 e }
+
+def SrvMon.verdict (m : SrvMon) : Option String :=
+  let fs := [("C04", m.c04.bad), ("C06", m.c06.bad.orElse fun _ => m.c06s.bad), ("C08", m.c08.bad), ("C09", m.c09.bad),
+             ("C10", m.c10.bad), ("C11", m.c11.bad), ("C12", m.c12.bad), ("C14", m.c14.bad), ("C18", m.c18.bad),
+             ("PARSE", m.garbled)]
+  let bad := fs.filterMap fun (p, b) => b.map fun w => s!"[{p}] {w}"
+  if bad.isEmpty then none else some (" ;; ".intercalate bad)
+
+def srvMonInit (ps : List (String × String)) : SrvMon :=
+  let l := srvLimit ps
+  let bk : Server.Book := { limit := l }
+  { limit := l, c04 := { st := (), book := bk }, c06 := { st := (), book := bk }, c06s := { st := {}, book := bk },
+    c08 := { st := [], book := bk }, c09 := { st := none, book := bk }, c10 := { st := (), book := bk },
+    c11 := { st := (), book := bk }, c12 := { st := false, book := bk }, c14 := { st := {}, book := bk },
+    c18 := { st := (), book := bk } }
+
 def srv : Family where
-  σ := SrvSt
-  μ := Unit
+  σ := Server.Sys
+  μ := SrvMon
   init := srvInit
   step := srvStep
-  monInit _ := ()
-  monStep _ _ := ()
-  monVerdict _ := none
+  monInit := srvMonInit
+  monStep m toks :=
+    match parseObs toks with
+    | some o => m.feed (.obs o)
+    | none => { m with garbled := m.garbled.orElse fun _ => some ("unparsable obs: " ++ " ".intercalate toks) }
+  monOp m toks :=
+    match parseSOp toks with
+    | some o => m.feed (.op o)
+    | none => { m with garbled := m.garbled.orElse fun _ => some ("unparsable op: " ++ " ".intercalate toks) }
+  monVerdict m := m.verdict
 
 end TarpcModel.Driver
